@@ -156,6 +156,8 @@ class Exec(SpecMixin, ExprMixin, CallMixin, BuiltinMixin, StmtMixin, EventMixin)
         self.pure_axiomatised.add(g.path)
         self.axioms.append(self.entry_cx.heap.alloc(t))     # module-level objects exist at entry
         self.axioms.append(t != NONE)
+        if self.mode != 'event':
+          mark_entry(t)
       return VRef(t, parse_type(ty))
     return g
 
@@ -163,6 +165,14 @@ class Exec(SpecMixin, ExprMixin, CallMixin, BuiltinMixin, StmtMixin, EventMixin)
     v = ExprMixin.read_attr(self, base, attr, st, spec)
     if isinstance(v, VGlobal):
       return self.global_value(v)
+    if (self.mode != 'event' and isinstance(v, VRef) and isinstance(base, VRef)
+        and self.entry_cx is not None and base.t.get_id() in ENTRY_TERMS
+        and attr in getattr(self, 'ref_fields', ())
+        and st.heap.get(('fld', attr)) is self.entry_cx.heap.get(('fld', attr))):
+      # a reference field of an object that existed at entry, read through the entry heap's own field
+      # function: the value existed at entry too (heap_wf closure axiom; restated as a hypothesis)
+      st.assume(self.entry_cx.heap.alloc(v.t))
+      mark_entry(v.t)
     return v
 
   # ---------------------------------------------------------------- function entry
@@ -196,6 +206,8 @@ class Exec(SpecMixin, ExprMixin, CallMixin, BuiltinMixin, StmtMixin, EventMixin)
       st.env[p] = v
       if isinstance(v, VRef):
         st.assume(st.heap.alloc(v.t))        # whatever is passed in exists at entry
+        if self.mode != 'event':
+          mark_entry(v.t)
     for gname, gty in c.ghost.items():
       if gname in ('params', 'defaults'):
         continue
@@ -295,6 +307,7 @@ class Exec(SpecMixin, ExprMixin, CallMixin, BuiltinMixin, StmtMixin, EventMixin)
     self.node = node
     self.cur_mod = modinfo
     self.base_line = node.lineno
+    reset_known()
     self.register_loops(node)
     self.check_private(node)
     for k in c.loops:
